@@ -12,6 +12,17 @@ tie:    harness/c03_trans.cc calls the REAL transformers of BD_Shape<mpq_class |
               arithmetic must be entrywise <= the real matrix),
           (b) independently judges the real output with the proved K1 deciders: `before` and `after` read as constraint
               systems, the exact result computed with the RefPoly operators, `exact ⊆ after` demanded.
+stage 5: PPLV.Props.C03Trans2 (+ C03Trans2Oct / C03Trans2Lhs / C03Trans2Lat) over the code-shaped models lean/PPLV/WR/TransOct2*.lean
+        (Octagonal_Shape: add_constraint, refine_no_check, private refine(var, ...), generalized_affine_image(var), bounded_affine_image,
+        affine_preimage, generalized_affine_preimage(var), unconstrain), Trans2Lhs.lean / TransOct2Lhs.lean (both domains:
+        generalized_affine_(pre)image(lhs, relsym, rhs); BD_Shape's private refine) and Trans2Lat.lean / TransOct2Lat.lean (both
+        domains: intersection / upper_bound / difference / concatenate / embed / project / remove_(higher_)space_dimensions /
+        map / expand / fold); same harness (`--s5 <cases>`), same driver, same two obligations (a) identical matrix, closed flag and
+        space dimension, (b) K1 judge on the REAL output: the exact result is a union of reference polyhedra (join: both arguments;
+        difference: x minus each row of y; fold: one piece per folded variable; time_elapse: x, and no row of the result decreases
+        along y), exactness on gamma demanded where the operation is exact for every T.  difference_assign is replayed over the
+        REAL results of its callees (contains, constraints, relation_with, add_constraint, is_empty: executed by the harness on
+        copies and journalled); time_elapse_assign has no model (C_Polyhedron round trip): verdict `judged`.
 verdicts: MISMATCH   -> the model does not say what the code does on this input: CORRESPONDENCE-DIFF (a VIOLATION: the
                         theorems are about the model); when the judge also fails on the same input the property itself
                         is violated there.
@@ -206,13 +217,17 @@ def _examine(ctx, journal, verdicts, harness_args, cov_all):
                     else "native_int_product_overflows_T")
             rec_tags = [pred] if pred in tags else [t for t in tags if t not in (
                 "native_int_product_overflows_T", "coefficient_or_denominator_not_representable_in_T")]
+            # the private refine(var, ...) is reached from generalized_affine_preimage(var) / bounded_affine_preimage: the open
+            # Not-a-Number findings name the public function
+            nan_site = {"BD_Shape::refine(var)": "BD_Shape::generalized_affine_preimage(var)",
+                        "Octagonal_Shape::refine(var)": "Octagonal_Shape::generalized_affine_preimage(var)"}.get(site, site)
             cls = (site, tn, "NAN", pred in tags)
             reported[cls] += 1
             if reported[cls] <= 3:
                 what = ("%s [%s]: a Not-a-Number %s | %s | event: %s" % (
                     site, tn, "reaches sgn(), which throws the int 0" if "threw" in head[4:] else "is stored in the matrix",
                     vs[0][:200], line[:400]))
-                ctx.violation(what, dict(replay, tags=tags), found_input=True, record={"site": site, "tags": rec_tags})
+                ctx.violation(what, dict(replay, tags=tags), found_input=True, record={"site": nan_site, "tags": rec_tags})
         elif kind == "CRASH":
             tags = structural_tags(ev) + ["crash", head[3] if len(head) > 3 else "?"]
             cls = (site, tn, "CRASH")
